@@ -266,7 +266,12 @@ func (pg *ProgGen) stmt(depth int) []mt.Stmt {
 			x.Conds = append(x.Conds, pg.cond())
 			// variables set in a branch are only conditionally defined: snapshot scope
 			iv, sv := len(pg.intVars), len(pg.strVars)
-			x.Bodies = append(x.Bodies, pg.Body(depth-1, 3))
+			if r.P(1, 7) {
+				// an empty branch: taken, it renders nothing and nothing else of the chain either
+				x.Bodies = append(x.Bodies, []mt.Stmt{})
+			} else {
+				x.Bodies = append(x.Bodies, pg.Body(depth-1, 3))
+			}
 			innerIf = append(append(innerIf, pg.intVars[iv:]...), pg.strVars[sv:]...)
 			pg.intVars, pg.strVars = pg.intVars[:iv], pg.strVars[:sv]
 		}
@@ -274,6 +279,9 @@ func (pg *ProgGen) stmt(depth int) []mt.Stmt {
 			x.HasElse = true
 			iv, sv := len(pg.intVars), len(pg.strVars)
 			x.Else = pg.Body(depth-1, 2)
+			if r.P(1, 10) {
+				x.Else = []mt.Stmt{}
+			}
 			innerIf = append(append(innerIf, pg.intVars[iv:]...), pg.strVars[sv:]...)
 			pg.intVars, pg.strVars = pg.intVars[:iv], pg.strVars[:sv]
 		}
